@@ -55,10 +55,19 @@ int main()
          std::string b; ss >> b;
          auto* g = lex.make_general_substitution();
          if (b != "-") {
+            // bindings are given the way client code writes them: g.subst(p1, v1).subst(p2, v2)... in chains of up to three calls
+            std::vector<std::pair<const ipr::Parameter*, const ipr::Expr*>> bindings;
             std::stringstream bs(b); std::string tok;
             while (std::getline(bs, tok, ',')) {
                auto c = tok.find(':');
-               g->subst(*params.at(std::stoi(tok.substr(0, c))), *values.at(std::stoi(tok.substr(c + 1))));
+               bindings.push_back({ params.at(std::stoi(tok.substr(0, c))), values.at(std::stoi(tok.substr(c + 1))) });
+            }
+            std::size_t i = 0;
+            while (i < bindings.size()) {
+               std::size_t left = bindings.size() - i;
+               if (left >= 3 and i % 2 == 0) { g->subst(*bindings[i].first, *bindings[i].second).subst(*bindings[i + 1].first, *bindings[i + 1].second).subst(*bindings[i + 2].first, *bindings[i + 2].second); i += 3; }
+               else if (left >= 2) { g->subst(*bindings[i].first, *bindings[i].second).subst(*bindings[i + 1].first, *bindings[i + 1].second); i += 2; }
+               else { g->subst(*bindings[i].first, *bindings[i].second); i += 1; }
             }
          }
          s = g;
